@@ -70,7 +70,13 @@ def gen_plan(rng: random.Random, tier: str) -> dict:
     flood_at = rng.randrange(0, max(1, n // 2)) if rng.random() < (0.12 if big else 0.04) else None
     flooded = False
     reconnect_at = rng.randrange(1, max(2, n)) if rng.random() < 0.15 else None
+    p_wait = rng.choice([0.0, 0.0, 0.06, 0.15])
     for i_ in range(n):
+        if rng.random() < p_wait:
+            # somebody waits for the next chat (a one-off subscriber that removes itself when served) and somebody
+            # else subscribes for good right behind it
+            steps.append({"at": t, "op": "cwait", "level": rng.choice(["session", "region"]),
+                          "key": rng.choice(["ChatFromSimulator", "*"])})
         if i_ == reconnect_at:
             # the simulator went away and the client re-opens the circuit (HippoClientRegion.disconnect / connect)
             steps.append({"at": t, "op": "reconnect"})
@@ -425,6 +431,17 @@ def run_plan(plan: dict) -> RunResult:
                             rec["future"] = None      # nobody is waiting any more; acks and resends go on as usual
                     loop.call_later(st["abandon_after"], _abandon)
 
+        waiters = []
+
+        def op_cwait(st):
+            handler = session.message_handler if st["level"] == "session" else region.message_handler
+            n_ = len(waiters)
+            waiters.append(handler.wait_for((st["key"],), take=False))
+            sname = f"late{n_}:{st['level']}:" + ("name" if st["key"] != "*" else "*")
+            subs[sname] = (handler, st["key"])
+            handler.subscribe(st["key"], make_sub(sname))
+            res.probe("subscriber_registered_behind_a_one_off_waiter")
+
         def op_reconnect(st):
             res.fault("circuit_reopened")
             if any(r_["reliable"] and r_["acked_at"] is None and r_["done_at"] is None and r_["future"] is not None
@@ -441,7 +458,7 @@ def run_plan(plan: dict) -> RunResult:
             circuit.is_alive = True
 
         ops = {"ssend": op_ssend, "sresend": op_sresend, "sack": op_sack, "csend": op_csend, "flood": op_flood,
-               "reconnect": op_reconnect}
+               "reconnect": op_reconnect, "cwait": op_cwait}
         for i, st in enumerate(plan["steps"]):
             def _run(i=i, st=st):
                 env.tr("step", i, st["op"])
